@@ -317,6 +317,18 @@ func newEvaluator(rule string) (ev *parser.Evaluator, err error, escaped string)
 	// attribute name, or up to the length of a run of blanks inside a string literal. What was parsed earlier in the
 	// process must not matter (C11), so this changes no expected outcome.
 	decoyTick++
+	if v := collapseOuterBlanks(rule); v != rule && decoyTick%3 == 1 && len(rule) < 2000 {
+		// a text with wider white space than one blank between its words: its single-blank sibling first
+		func() {
+			defer func() { recover() }()
+			saved := append([]int(nil), callLog...)
+			if e2, _ := parser.NewEvaluator(v); e2 != nil {
+				e2.Process(map[string]interface{}{})
+			}
+			noteDecoy(fmt.Sprintf("NewEvaluator(%q).Process({})", v))
+			callLog = append(callLog[:0], saved...)
+		}()
+	}
 	if decoyTick%8 == 5 {
 		if v := nearbyRuleText(rule, decoyTick); v != rule {
 			func() {
@@ -372,7 +384,7 @@ func newEvaluator(rule string) (ev *parser.Evaluator, err error, escaped string)
 func nearbyRuleText(rule string, tick int) string {
 	b := []byte(rule)
 	inStr := false
-	var names, blanks []int
+	var names, blanks, outer []int
 	for i := 0; i < len(b); i++ {
 		c := b[i]
 		switch {
@@ -382,6 +394,8 @@ func nearbyRuleText(rule string, tick int) string {
 			inStr = !inStr
 		case inStr && c == ' ':
 			blanks = append(blanks, i)
+		case !inStr && c == ' ':
+			outer = append(outer, i)
 		case !inStr && ((c >= 'a' && c <= 'z') || (c >= 'A' && c <= 'Z')) && (i == 0 || b[i-1] == ' ' || b[i-1] == '(' || b[i-1] == '.' || b[i-1] == '\n'):
 			// first letter of a word outside a string: an attribute name or a keyword (a keyword with one letter of the
 			// other case is an attribute name or a syntax error - a different rule either way)
@@ -389,8 +403,11 @@ func nearbyRuleText(rule string, tick int) string {
 		}
 	}
 	if tick%24 == 13 {
-		// the rule with every run of blanks, tabs and line breaks OUTSIDE string literals collapsed to one blank: for a
-		// malformed text (two blanks, a tab, a newline before the blank) this is often its well-formed sibling
+		if v := collapseOuterBlanks(rule); v != rule {
+			return v
+		}
+	}
+	if false {
 		var sb strings.Builder
 		inS, run := false, false
 		for i := 0; i < len(rule); i++ {
@@ -418,6 +435,11 @@ func nearbyRuleText(rule string, tick int) string {
 			return v
 		}
 	}
+	if len(outer) > 0 && tick%16 == 13 {
+		// one blank between two words doubled: a malformed sibling (the grammar allows exactly one blank there)
+		i := outer[tick%len(outer)]
+		return string(b[:i]) + " " + string(b[i:])
+	}
 	if len(blanks) > 0 && tick%16 == 5 {
 		i := blanks[tick%len(blanks)]
 		return string(b[:i]) + " " + string(b[i:])
@@ -441,6 +463,35 @@ func noteDecoy(s string) {
 	if len(recentDecoys) > 4 {
 		recentDecoys = recentDecoys[len(recentDecoys)-4:]
 	}
+}
+
+// collapseOuterBlanks: the rule with every run of blanks, tabs and line breaks OUTSIDE string literals collapsed to one
+// blank: for a malformed text (two blanks, a tab, a newline before the blank) this is often its well-formed sibling
+func collapseOuterBlanks(rule string) string {
+	var sb strings.Builder
+	inS, run := false, false
+	for i := 0; i < len(rule); i++ {
+		c := rule[i]
+		switch {
+		case inS && c == '\\' && i+1 < len(rule):
+			sb.WriteByte(c)
+			i++
+			sb.WriteByte(rule[i])
+			continue
+		case c == '"':
+			inS = !inS
+		}
+		if !inS && (c == ' ' || c == '\t' || c == '\n' || c == '\r') {
+			if !run {
+				sb.WriteByte(' ')
+			}
+			run = true
+			continue
+		}
+		run = false
+		sb.WriteByte(c)
+	}
+	return sb.String()
 }
 
 var decoyTick int
